@@ -19,7 +19,7 @@ impl DictRow {
 
 pub fn dict_rows(quick: bool) -> Vec<DictRow> {
     let mut rows = vec![];
-    let wbs: &[i32] = if quick { &[9, 15] } else { &[9, 10, 12, 15] };
+    let wbs: &[i32] = if quick { &[9, 15] } else { &[9, 10, 11, 12, 13, 14, 15] };
     for &wbits in wbs {
         let w = 1usize << wbits;
         let mut dlens = vec![0usize, 1, 2, 3, 4, 258, w - 263, w - 262, w - 261, w - 1, w, w + 1, 2 * w - 1, 2 * w, 2 * w + 1, 3 * w];
@@ -37,7 +37,7 @@ pub fn dict_rows(quick: bool) -> Vec<DictRow> {
             let levels: &[i32] = if quick { &[0, 1, 2, 4, 6, 9] } else { &[0, 1, 2, 3, 4, 5, 6, 7, 8, 9] };
             for wrap in [Wrap::Raw, Wrap::Zlib] {
                 for &level in levels {
-                    for mem_level in [1, 8] {
+                    for mem_level in if quick { vec![1, 8] } else { vec![1, 2, 8, 9] } {
                         if quick && mem_level == 8 && level % 2 == 1 {
                             continue;
                         }
